@@ -38,13 +38,15 @@ def budget(tier):
 def _case(draw):
     r = draw(gen.recipe("xml"))
     # subtype prov:type values, as QualifiedName and as plain string (must not be folded)
-    extra = draw(st.lists(st.tuples(st.integers(0, 30), st.sampled_from(SUBTYPES), st.sampled_from(["qn", "str", "lit"])), max_size=2))
+    extra = draw(st.lists(st.tuples(st.integers(0, 30), st.sampled_from(SUBTYPES), st.sampled_from(["qn", "str", "lit", "uri"])), max_size=2))
     ops = list(r["ops"])
     for sel, sub, how in extra:
         if how == "qn":
             val = {"k": "qn", "ns": "http://www.w3.org/ns/prov#", "local": sub, "prefix": "prov"}
         elif how == "str":
             val = {"k": "str", "v": "prov:" + sub}
+        elif how == "uri":
+            val = {"k": "uri", "v": "http://www.w3.org/ns/prov#" + sub}
         else:
             val = {"k": "str", "v": sub}
         ops.append(["attrs", sel, [[gen.prov_name("type"), val]], "pairs"])
@@ -66,10 +68,11 @@ def matrix(tier):
             yield dict(c, opts={"force_types": ft, "binary": bool(i % 3 == 0)})
     # subtype values on every element / derivation
     for sub in SUBTYPES:
-        for how in ("qn", "str"):
+        for how in ("qn", "str", "uri"):
             for kind in ("entity", "agent", "activity", "derivation"):
                 val = ({"k": "qn", "ns": "http://www.w3.org/ns/prov#", "local": sub, "prefix": "prov"} if how == "qn"
-                       else {"k": "str", "v": "prov:" + sub})
+                       else {"k": "str", "v": "prov:" + sub} if how == "str"
+                       else {"k": "uri", "v": "http://www.w3.org/ns/prov#" + sub})
                 formal = {}
                 from .. import spec
                 for j, (arg, typ) in enumerate(spec.formal_args(kind)[:spec.mandatory(kind)]):
